@@ -490,7 +490,7 @@ impl<'a> Rend<'a> {
         }
         o.push_str("fn dsp(){\n");
         for d in &s.dsps {
-            let site = self.site(d.task, &format!("now + {}", num(d.d)), d.via, if d.every { "        " } else { "        " }, false);
+            let site = self.site(d.task, &format!("now + {}", num(d.d)), d.via, "        ", false);
             if d.every {
                 o.push_str(&format!("    {site}\n"));
             } else {
@@ -652,7 +652,10 @@ fn judge(src: &str, n: u64, expect: Option<(&[Vec<u64>], bool, &[u32], &[u32])>,
     match wfail {
         None => v.wasm = if wasm_safe { "wasm:agrees" } else { "wasm:agrees-despite-hazard" },
         Some(f) => {
-            if tolerate {
+            // the two observed faces of the known finding: a wrong closure runs (outputs differ) or
+            // garbage is dispatched and re-enters the global initialiser, whose `@` then panics
+            let known_face = f.0 == "c11:wasm-differs-from-vm" || (f.0.starts_with("c11:panic:wasm-") && f.0.contains("must be in the future"));
+            if tolerate && known_face {
                 v.tolerated = true;
                 v.wasm = "wasm:tolerated";
             } else {
